@@ -315,13 +315,13 @@ ADAPTERS = re.compile(
     r"|core::str::<impl str>::(as_bytes|as_ref|trim)|str::(as_bytes|as_ref|trim|as_str)|alloc::string::String::(as_str|as_bytes)"
     r"|core::clone::Clone::clone|alloc::borrow::ToOwned::to_owned|alloc::string::ToString::to_string"
     r"|core::convert::(Into::into|From::from|AsRef::as_ref)|core::ops::deref::Deref(Mut)?::deref(_mut)?"
-    r"|alloc::vec::Vec::<.*>::as_slice|core::borrow::Borrow::borrow|alloc::borrow::Cow::<.*>::(as_ref|into_owned)"
+    r"|alloc::vec::Vec::(as_slice|as_ref|iter)|\[T\]::(iter|as_ref)|core::borrow::Borrow::borrow|alloc::borrow::Cow::(as_ref|into_owned)"
     r"|core::ops::try_trait::Try::branch|core::future::into_future::IntoFuture::into_future"
     r")$"
 )
 
 
-def origins(n, env, adapters=ADAPTERS, extra=None, depth=0, seen=None, sel=(), accessors=None):
+def origins(n, env, adapters=ADAPTERS, extra=None, depth=0, seen=None, sel=(), accessors=None, trace=None):
     """Set of root origins of the value of expression `n` (optionally of its sub-component `sel`):
        ('param', name, path...) | ('call', fn) | ('lit', value) | ('def', path) | ('other', kind)
     Field accesses / destructuring paths are kept as suffixes on param/local roots: ('param', 'options', 'nonce')."""
@@ -334,7 +334,7 @@ def origins(n, env, adapters=ADAPTERS, extra=None, depth=0, seen=None, sel=(), a
     k = n.get("k")
 
     def rec(x, sel_=sel, seen_=None):
-        return origins(x, env, adapters, extra, depth + 1, seen if seen_ is None else seen_, sel_, accessors)
+        return origins(x, env, adapters, extra, depth + 1, seen if seen_ is None else seen_, sel_, accessors, trace)
 
     t = try_inner(n)
     if t is not None:
@@ -346,6 +346,8 @@ def origins(n, env, adapters=ADAPTERS, extra=None, depth=0, seen=None, sel=(), a
         r = n.get("res", {})
         if "local" in r:
             bid = r["id"]
+            if trace is not None:
+                trace.add(r["local"])
             if bid in env.params:
                 name, _, path = env.params[bid]
                 return {("param", name) + tuple(path) + tuple(sel)}
@@ -411,14 +413,18 @@ def origins(n, env, adapters=ADAPTERS, extra=None, depth=0, seen=None, sel=(), a
                             return recv_o
                         return {("call", fd)}
                 out |= recv_o
+                if mname in ("ok_or", "ok_or_else", "map_err", "expect", "filter", "find", "take", "skip"):
+                    return out
                 for extra_arg in args[1:]:
                     ea = strip(extra_arg)
                     if ea.get("k") == "closure" and mname in ("unwrap_or_else", "or_else"):
                         out |= rec(ea["body"], ())
+                    elif ea.get("k") == "path" and "local" in ea.get("res", {}):
+                        out |= rec(extra_arg, ())
                     elif ea.get("k") not in ("closure", "path", "lit"):
                         out |= rec(extra_arg, ())
                 return out
-        return {("call", nm)}
+        return {("call", nm) + tuple(sel)}
     if k == "closure_param":
         return {("closure_param", n["closure"], n["index"]) + tuple(sel)}
     if k == "if":
@@ -813,4 +819,38 @@ def local_name(n):
     n = strip(n)
     if isinstance(n, dict) and n.get("k") == "path" and "local" in n.get("res", {}):
         return n["res"]["local"]
+    return None
+
+
+def ok_conditions(h):
+    """For a fn returning Result<(), E> as a pure predicate: [(cond_node, ok_when)] such that the fn returns Ok iff cond == ok_when.
+    Recognised shapes: `cond.then_some(()).ok_or(E)`, `if cond {Ok} else {Err}`, `if cond {return Err}; ..; Ok`."""
+    out = []
+    t = Tree(h)
+    for n, oc in exits(h):
+        n2 = strip(n)
+        if n2.get("k") == "mcall" and n2["name"] in ("ok_or", "ok_or_else"):
+            r = strip(n2["recv"])
+            if r.get("k") == "mcall" and r["name"] in ("then_some", "then"):
+                out.append((r["recv"], True, n2))
+                continue
+        if oc == "Ok":
+            for c in t.path_conditions(n):
+                if c[0] == "if":
+                    out.append((c[1], c[2], n))
+    return out
+
+
+def relation(cmp_node, env, role_a, role_b, accessors=None, extra=None):
+    """If cmp_node is a comparison between an operand satisfying role_a and one satisfying role_b (predicates over origin sets),
+    return the operator as seen from `A op B`; else None."""
+    c = strip(cmp_node)
+    if not isinstance(c, dict) or c.get("k") != "binary" or c.get("op") not in NEG:
+        return None
+    lo = origins(c["l"], env, accessors=accessors, extra=extra)
+    ro = origins(c["r"], env, accessors=accessors, extra=extra)
+    if role_a(lo) and role_b(ro):
+        return c["op"]
+    if role_a(ro) and role_b(lo):
+        return SWAP[c["op"]]
     return None
